@@ -102,6 +102,9 @@ func (e *Exec) topEnv(cur *State) *SpecEnv {
 
 func (e *Exec) loopEnv() *SpecEnv {
 	env := e.topEnv(e.st)
+	if e.curPos != 0 {
+		env.scopePos = e.curPos
+	}
 	// range index ghosts: $i<k> visible as idx<k>
 	for k, v := range e.st.vars {
 		if ks, ok := k.(string); ok && strings.HasPrefix(ks, "$i") {
@@ -400,6 +403,9 @@ func (e *Exec) checkFrame(retOrd int) {
 		if ls != nil && ls.whole {
 			continue
 		}
+		if e.onlyFreshWrites(k, 0) {
+			continue // every write to this key hit an object allocated by this call: nothing pre-existing changed
+		}
 		conds := []string{sx("<=", sx("root", "r!f"), "alloc0"), sx("<", "0", sx("root", "r!f"))}
 		if ls != nil {
 			for _, r := range ls.refs {
@@ -540,6 +546,7 @@ func (e *Exec) havocLocs(sets map[string]*locSet) {
 		}
 		if ls.whole {
 			e.st.heap[k] = e.fresh("Hc."+k, sortS)
+			e.logWrite(k, "*")
 			continue
 		}
 		cur := e.heapGet(k, sortS)
